@@ -178,7 +178,17 @@ theorem guarded_recursion_terminates (own : Bool) (v : Recursion.J) :
 theorem isEmpty_still_diverges (fuel : Nat) : Recursion.isEmpty (Recursion.ΓL false) fuel (.ref 0) = .diverge :=
   (Recursion.isEmpty_diverges fuel).1
 theorem isEmpty_without_subschemas_answers (Γ : Recursion.Env) (own : Bool) (fuel : Nat) :
-    Recursion.isEmpty Γ (fuel + 1) (.node own none [] [] none) = .ok (!own) := Recursion.isEmpty_no_sub Γ own fuel
+    Recursion.isEmpty Γ (fuel + 1) (.node own none [] [] none [] none) = .ok (!own) := Recursion.isEmpty_no_sub Γ own fuel
+
+/-- `Labels: {additionalProperties: {$ref: Labels}}` is decided on every value although `Schema.IsEmpty` does not
+    terminate on it: `visitJSON` only evaluates `IsEmpty` on schemas without sub-schemas (obligation
+    `isEmpty_fields_all_guarded` over the regenerated table `SubSchemaFields`) -/
+theorem addl_cycle_decided (s : Recursion.S) (v : Recursion.J) :
+    ∃ n b, ∀ m, n ≤ m → Recursion.visit (Recursion.envOf [.node false none [] [] none [] (some (.ref 0))]) m s v = .ok b :=
+  Recursion.guardedB_sound _ (by decide) v s
+
+theorem isEmpty_addl_cycle_diverges (fuel : Nat) : Recursion.isEmpty Recursion.ΓP fuel (.ref 0) = .diverge :=
+  (Recursion.isEmpty_addl_diverges fuel).1
 
 /-- the same defect through the other unguarded positions: `A: {not: {$ref: A}}`, `A: {anyOf: [{$ref: A}]}` -/
 theorem unguarded_not_diverges (v : Recursion.J) (fuel : Nat) :
@@ -204,17 +214,21 @@ theorem guarded_recursion_decided_partial (defs : List Recursion.S) (hx : ExclRe
 /-- the check separates the witnesses: the three unguarded self-references are excluded, the guarded ones and a
     two-definition chain are not; the depth-bounded cycle search of the driver agrees on them -/
 theorem unguarded_cycle_detected :
-    ExclRec [.node true none [] [.ref 0] none] = true ∧ ExclRec [.node false none [] [.ref 0] none] = true ∧
-    ExclRec [.node false (some (.ref 0)) [] [] none] = true ∧ ExclRec [.node false none [.leaf true, .ref 0] [] none] = true ∧
-    ExclRec [.node false none [] [] (some (.ref 0))] = false ∧
-    ExclRec [.node false none [] [.ref 1] (some (.ref 0)), .node true (some (.leaf false)) [.leaf true] [] (some (.ref 0))] = false ∧
-    Recursion.hasUnguardedCycle [.node true none [] [.ref 0] none] = true ∧
-    Recursion.hasUnguardedCycle [.node false none [] [.ref 0] none] = true ∧
-    Recursion.hasUnguardedCycle [.node false none [] [] (some (.ref 0))] = false := by decide
+    ExclRec [.node true none [] [.ref 0] none [] none] = true ∧ ExclRec [.node false none [] [.ref 0] none [] none] = true ∧
+    ExclRec [.node false (some (.ref 0)) [] [] none [] none] = true ∧ ExclRec [.node false none [.leaf true, .ref 0] [] none [] none] = true ∧
+    ExclRec [.node false none [] [] (some (.ref 0)) [] none] = false ∧
+    ExclRec [.node false none [] [.ref 1] (some (.ref 0)) [] none, .node true (some (.leaf false)) [.leaf true] [] (some (.ref 0)) [] none] = false ∧
+    Recursion.hasUnguardedCycle [.node true none [] [.ref 0] none [] none] = true ∧
+    Recursion.hasUnguardedCycle [.node false none [] [.ref 0] none [] none] = true ∧
+    Recursion.hasUnguardedCycle [.node false none [] [] (some (.ref 0)) [] none] = false ∧
+    -- cycles through additionalProperties / properties are guarded (the class of C10-r3m2: Labels, Node)
+    ExclRec [.node false none [] [] none [] (some (.ref 0))] = false ∧
+    ExclRec [.node false none [] [] none [(1, .ref 0)] none] = false ∧
+    ExclRec [.node false none [] [] none [(1, .node false none [] [.ref 0] none [] none)] (some (.ref 0))] = false := by decide
 
 /-- non-vacuity of the general theorem: a two-definition environment with a guarded cycle and an unguarded chain -/
 example : ∃ n b, ∀ m, n ≤ m → Recursion.visit
-    (Recursion.envOf [.node false none [] [.ref 1] (some (.ref 0)), .node true (some (.leaf false)) [.leaf true] [] (some (.ref 0))])
+    (Recursion.envOf [.node false none [] [.ref 1] (some (.ref 0)) [] none, .node true (some (.leaf false)) [.leaf true] [] (some (.ref 0)) [] none])
     m (.ref 0) (.arr [.num 1, .arr [.num 2]]) = .ok b :=
   guarded_recursion_decided_partial _ (by decide) _ _
 
